@@ -1,8 +1,9 @@
 #!/bin/bash
-# seed_table.sh [tier]: apply every seeded change in turn, run the property's own check, print one line per seed.
-TIER="${1:-quick}"
+# seed_table.sh [tier] [glob]: apply every seeded change matching the glob in turn, run the property's own check, print one line per seed.
+TIER="${1:-quick}"; GLOB="${2:-*}"
 cd /verif
-for s in seeded/*/; do
+for s in seeded/$GLOB/; do
+  [ -f "$s/patch.diff" ] || continue
   n=$(basename $s); id=${n:0:3}
   line=$(scripts/try_seed.sh /verif/$s/patch.diff $TIER $id 2>&1 | head -1)
   rc=$(echo "$line" | sed -n 's/.*rc=\([0-9]*\)\].*/\1/p')
